@@ -279,6 +279,8 @@ def run(ctx):
     # the narrow window: a queued branch started by a freed worker while the batch's completion record is in flight
     for i in range(ctx.scale(300, 6000)):
         comp_executor.one(ctx, "C10", comp_executor.gen_late_begin(ctx.rng), ctx.rng.randrange(1 << 30), component="executor.late_begin")
+    # a later invocation that is still replaying when the batch is decided
+    comp_executor.run_templates(ctx, "C10", [comp_executor.gen_replay_orphan], 60, 2000)
 
 
 def search(ctx):
